@@ -80,6 +80,18 @@ Definition pres (src out : view) : bool := forall2b col_pres src out.
 Definition names (v : view) : list string := map fst v.
 Definition shape (v : view) : list (string * nat) := map (fun c => (fst c, List.length (snd c))) v.
 
+(* ---------- what a route through pandas does, exactly ---------- *)
+(* every integer of a column that contains a null is replaced by its double (exact or not) *)
+Definition widen_cell (c : cell) : cell := match c with VInt z => VFloat (z2f z) | _ => c end.
+Definition widened_view (v : view) : view :=
+  map (fun c => (fst c, if existsb is_null (snd c) then map widen_cell (snd c) else snd c)) v.
+(* equal up to null/NaN: same names, and position by position the same cell after norm *)
+Definition same_col (c c' : string * list cell) : bool :=
+  String.eqb (fst c) (fst c') && forall2b (cell_pres false) (snd c) (snd c').
+Definition same (v v' : view) : bool := forall2b same_col v v'.
+Definition expected (through_pandas : bool) (v : view) : view := if through_pandas then widened_view v else v.
+Definition to_pandas (b : fwk) : bool := fwk_eqb b FPandas.
+
 (* ---------- well-formed tables of the modelled value domain ---------- *)
 Fixpoint nodupb (l : list string) : bool :=
   match l with [] => true | k :: r => negb (mem k r) && nodupb r end.
